@@ -173,6 +173,20 @@ prop('C19',
   "Not decided (declared): exactness of the adjacency w.r.t. a physical network; forest / spanning correctness of the tree traversal for every adjacency (algorithmic, value-level); hold-down timing.",
   "custom AST/CFG checker: ownership, guard dominance, per-iteration effect intervals, writer/reader constant agreement, ordering (dominance) of alternative decoders", "DESIGN.md 5/C19")
 
+prop('C06',
+  "Static analysis of /repo's current source: decides structural necessary conditions - Scheduler.cycle's interpretation of each kind of "
+  "yielded value (operation, False, 0, positive number, None) reaches exactly the right effect (path-sensitive reachability) and a "
+  "0-yield is queued once; t.execute() and rv.execute() sit in catch-alls whose handlers neither re-queue nor re-run the task; every "
+  "BlockingOperation.execute in recoco has the number of scheduling effects on all paths that its confirmed resume table states; the "
+  "select hub forgets a registration (del tasks[t]) before every resume, treats a deadline as expired only when tto <= now, resumes the "
+  "nearest-deadline waiter only when the unmodified select result is empty, and picks up registrations only in the pinger branch; "
+  "Timer.run calls back once per wake, re-checks cancel after the wake and leaves the loop for non-recurring / self-stopped timers; "
+  "run_again reschedules the caller exactly once after storing result or exception, no closure reads an except-clause name after its "
+  "handler; BaseTask.execute resumes the generator at most once and clears rf/re/rv; names are defined. Decides these conditions, not "
+  "fairness, wall-clock accuracy, or program order inside user generators.",
+  "Not decided: 'eventually run' (randomised priority system), timing accuracy, threaded vs inline hub equivalence, program order inside user generators.",
+  "custom AST/CFG checker: effect intervals with callee summaries against a per-operation table, path-sensitive reachability per yielded-value kind, exception containment, must-precede, def-use of select results, definiteness", "DESIGN.md 5/C06")
+
 NOT_APPLICABLE = {
   'C16': "Address types: the statement is about numeric/textual agreement over the whole address domain (byte order, mask arithmetic, CIDR parsing, zero-run compression, round trips, rejection of malformed text) - results of computations on runtime values; no shape-level rule is a necessary and telling condition for it (DESIGN.md section 7).",
 }
